@@ -8,8 +8,8 @@ Open Scope Z_scope.
 (* well-formed input: every row has the length of the first one *)
 Definition wf (M : list (list Z)) : bool :=
   forallb (fun row => (length row =? n_cols M)%nat) M.
-(* the class in which the code returns one entry per row: no rows at all, or a non-empty first row
-   (for r > 0 rows of length 0 the early return gives [] - see C10_zero_cols_refuted) *)
+(* no rows, or a non-empty first row.  Before fix 05cf383 the code returned [] for r > 0 rows of length 0
+   (see C10_zero_cols_pinned_refuted); no theorem about the current code needs this predicate. *)
 Definition has_cols (M : list (list Z)) : bool :=
   match M with
   | [] => true
